@@ -289,6 +289,14 @@ class _Idioms(ast.NodeTransformer):
 
     def visit_Call(self, n: ast.Call):
         self.generic_visit(n)
+        if any(isinstance(a, ast.Starred) and isinstance(a.value, (ast.Tuple, ast.List)) for a in n.args):
+            flat = []
+            for a in n.args:
+                if isinstance(a, ast.Starred) and isinstance(a.value, (ast.Tuple, ast.List)):
+                    flat.extend(a.value.elts)
+                else:
+                    flat.append(a)
+            n = ast.Call(func=n.func, args=flat, keywords=n.keywords)
         d = dotted_of(n.func)
         if d and d.split(".")[0] in ("np", "numpy") and d.split(".")[-1] in _NP_METHODS and len(d.split(".")) == 2 and n.args \
                 and not isinstance(n.args[0], ast.Starred):
@@ -464,3 +472,67 @@ class _MatchToIf(ast.NodeTransformer):
 
 def match_to_if(fn: ast.AST) -> ast.AST:
     return ast.fix_missing_locations(_MatchToIf().visit(_copy.deepcopy(fn)))
+
+
+def mask_atoms(expr: ast.AST) -> tuple[set, set]:
+    """elementwise bounds masks are written `(A).all(axis=k) & (B).all(axis=k)` or `(A & B).all(axis=k)` / `np.all(A & B, axis=k)`:
+    returns (keys of the comparison atoms conjoined, the set of `axis` values of the enclosing .all() reductions)"""
+    e = canon(expr)
+    atoms: set = set()
+    axes: set = set()
+
+    def rec(n, ax):
+        if isinstance(n, ast.BinOp) and isinstance(n.op, ast.BitAnd):
+            rec(n.left, ax)
+            rec(n.right, ax)
+        elif isinstance(n, ast.BoolOp) and isinstance(n.op, ast.And):
+            for v in n.values:
+                rec(v, ax)
+        elif isinstance(n, ast.Call) and isinstance(n.func, ast.Attribute) and n.func.attr == "all":
+            a = N.kwarg(n, "axis") or (n.args[0] if n.args else None)
+            rec(n.func.value, N.const_int(a))
+        elif isinstance(n, ast.Compare):
+            left = n.left
+            for op, right in zip(n.ops, n.comparators):
+                atoms.add(N.compare_atom(left, op, right).key())
+                left = right
+            axes.add(ax)
+        else:
+            atoms.add(("?", U(n)))
+    rec(e, None)
+    return atoms, axes
+
+
+def value_candidates(fn: ast.FunctionDef, name_or_none: str | None = None):
+    """what a function can return, each with the branch literals under which it is produced:
+    [(expression, [(test, polarity), ...])] - for `return <expr>` the expression itself; for `return <name>` every definition of that
+    name (with the path literals of the defining statement).  Robust against early-return vs if/else-assign restructuring."""
+    from sa.cfg import build_cfg, path_conditions
+
+    g = build_cfg(fn)
+    out = []
+    first = g.entry.succ[0][0]
+
+    def conds_of(node):
+        ps = path_conditions(g, first, node) if node is not first else [[]]
+        # literals common to all paths
+        if not ps:
+            return []
+        common = None
+        for p in ps:
+            keyed = {(ast.dump(t), lab): (t, lab) for t, lab in p}
+            common = keyed if common is None else {k: v for k, v in common.items() if k in keyed}
+        return list((common or {}).values())
+
+    for n in g.nodes:
+        if n.kind == "return" and n.ast.value is not None:
+            v = n.ast.value
+            if isinstance(v, ast.Name) and assignments_to(fn, v.id):
+                for d in g.nodes:
+                    if d.kind == "stmt" and isinstance(d.ast, (ast.Assign, ast.AnnAssign)) and getattr(d.ast, "value", None) is not None:
+                        tg = d.ast.targets if isinstance(d.ast, ast.Assign) else [d.ast.target]
+                        if any(isinstance(t, ast.Name) and t.id == v.id for t in tg) and g.can_reach(d, n):
+                            out.append((d.ast.value, conds_of(d)))
+            else:
+                out.append((v, conds_of(n)))
+    return out
